@@ -379,7 +379,7 @@ func (g *fgen) newWatchRun(kind string, fetch bool) *watchRun {
 	r.w = &Watcher{
 		url: n.srv.URL, governanceContractAddress: c.gov, tokenBridgeContractId: bridge,
 		chainIndex: &ChainIndex{FromGroup: 0, ToGroup: 0}, msgChan: r.msgC, obsvReqC: make(chan *gossipv1.ObservationRequest),
-		blockPollerEnabled: &atomic.Bool{}, pollIntervalMs: 1, client: NewClient(n.srv.URL, "", 10), isMainnet: c.mainnet,
+		blockPollerEnabled: &atomic.Bool{}, pollIntervalMs: 1, client: NewClient(n.srv.URL, n.key, 10), isMainnet: c.mainnet,
 	}
 	return r
 }
@@ -624,7 +624,7 @@ func (r *watchRun) tables() (string, string) {
 }
 
 // heightTick sends one height to the real handleEvents loop and reports what came out.
-func (r *watchRun) heightTick(height int32) {
+func (r *watchRun) heightTick(height int32, drain bool) {
 	n := r.g.node
 	n.takeLog()
 	mt, ht := r.tables()
@@ -639,8 +639,8 @@ func (r *watchRun) heightTick(height int32) {
 	}
 	fwd := drainPubs(r.msgC)
 	sort.Strings(fwd)
-	r.g.emit("wheight %s height=%d now=%d main=%s hdr=%s reqs=%s fwd=%s exit=%s en=%s panic=%s", r.id, height, now, mt, ht,
-		fjoin(sortedLog(n.takeLog()), ","), fjoin(fwd, ","), fb(r.exited), r.en(), fb(r.panicked))
+	r.g.emit("wheight %s height=%d now=%d main=%s hdr=%s reqs=%s fwd=%s exit=%s en=%s panic=%s drain=%s", r.id, height, now, mt, ht,
+		fjoin(sortedLog(n.takeLog()), ","), fjoin(fwd, ","), fb(r.exited), r.en(), fb(r.panicked), fb(drain))
 }
 
 // randomHeights: values around the confirmation boundaries of the pending events, plus stalls and steps back.
@@ -722,13 +722,13 @@ func (g *fgen) pollCase() {
 		} else {
 			r.perturb(g.pick(0, 0, 0, 4))
 			cur = r.interestingHeight(cur)
-			r.heightTick(cur)
+			r.heightTick(cur, false)
 		}
 	}
 	// drain: the chain moves far ahead, nothing fails any more
 	for s := 0; s < 2 && !r.exited; s++ {
 		r.settle()
-		r.heightTick(1000 + int32(s))
+		r.heightTick(1000+int32(s), true)
 	}
 	r.stop()
 }
@@ -747,7 +747,7 @@ func (g *fgen) reobsCase() {
 	msgC := make(chan *common.MessagePublication, 256)
 	obsC := make(chan *gossipv1.ObservationRequest)
 	w := &Watcher{url: n.srv.URL, governanceContractAddress: c.gov, tokenBridgeContractId: bridge, chainIndex: &ChainIndex{},
-		msgChan: msgC, obsvReqC: obsC, blockPollerEnabled: &atomic.Bool{}, pollIntervalMs: 1, client: NewClient(n.srv.URL, "", 10), isMainnet: c.mainnet}
+		msgChan: msgC, obsvReqC: obsC, blockPollerEnabled: &atomic.Bool{}, pollIntervalMs: 1, client: NewClient(n.srv.URL, n.key, 10), isMainnet: c.mainnet}
 	base := time.Now().UnixMilli()
 	id := g.id("reobs")
 
